@@ -90,9 +90,9 @@ def check_trace(events, aborted):
                     rows = [tuple(r) for r in (d.get('sl') or []) if isinstance(d.get('sl'), list)] + \
                            [tuple(r) for r in (d.get('tp') or []) if isinstance(d.get('tp'), list)]
                     free = list(rows)
-                    for o in exits:
-                        hit = None
-                        for r in free:
+                    for o in sorted(exits, key=lambda o_: o_['type'] == 'MARKET'):     # exact-price kinds first
+                        hit = next((r for r in free if abs(r[0]) == abs(o['qty']) and r[1] == o['price']), None)
+                        for r in (free if hit is None else []):
                             if abs(r[0]) == abs(o['qty']) and (r[1] == o['price'] or
                                                                (o['type'] == 'MARKET' and abs(1 - r[1] / o['price']) <= TH * 1.01)):
                                 hit = r
@@ -108,13 +108,22 @@ def check_trace(events, aborted):
                     mine = [o for o in book.o.values() if o['symbol'] == sym and o['reduce_only'] and
                             o['seq'] >= cycle_start.get(sym, 0) and o['status'] in ('ACTIVE', 'EXECUTED')]
                     pool = list(mine)
-                    for r in rows:
-                        hit = None
+                    # two passes: rows that have an order at exactly their price take it first; only then may a row be backed by
+                    # a MARKET order inside the band (a greedy single pass can give the band match to the wrong row)
+                    exact_hit = {}
+                    for ri, r in enumerate(rows):
                         for o in pool:
-                            if abs(r[0]) == abs(o['qty']) and (r[1] == o['price'] or
-                                                               (o['type'] == 'MARKET' and abs(1 - r[1] / o['price']) <= TH * 1.01)):
-                                hit = o
+                            if abs(r[0]) == abs(o['qty']) and r[1] == o['price']:
+                                exact_hit[ri] = o
+                                pool.remove(o)
                                 break
+                    for ri, r in enumerate(rows):
+                        hit = exact_hit.get(ri)
+                        if hit is None:
+                            for o in pool:
+                                if abs(r[0]) == abs(o['qty']) and o['type'] == 'MARKET' and abs(1 - r[1] / o['price']) <= TH * 1.01:
+                                    hit = o
+                                    break
                         c('declared_rows_checked')
                         if hit is None:
                             v('declared_exit_row_without_order',
@@ -122,7 +131,8 @@ def check_trace(events, aborted):
                               f'executed order in this position cycle; exit orders of the cycle: '
                               f'{[(o["type"], o["qty"], o["price"], o["status"]) for o in mine][:6]}')
                             break
-                        pool.remove(hit)
+                        if hit in pool:
+                            pool.remove(hit)
                 else:
                     d = e['decl']
                     for name, side in (('buy', 'buy'), ('sell', 'sell')):
@@ -285,7 +295,8 @@ def _session(job):
         sc['p_update'] = rng.choice([0.1, 0.3, 0.5])
         sc['update_kinds'] = rng.sample(['trail_sl', 'tp_ladder', 'sl_ladder', 'liquidate', 'near_tp', 'near_tp', 'add_market', 'add_market',
                                          'reweight_tp', 'reweight_tp', 'reweight_sl', 'trail_sl_inplace', 'trail_sl_inplace', 'move_tp_inplace',
-                                         'double_market_exit', 'double_market_exit'],
+                                         'double_market_exit', 'double_market_exit', 'partial_market_sl', 'partial_market_sl',
+                                         'partial_market_tp'],
                                         rng.randint(2, 4))
         sc['on_increased'] = rng.choice(['retarget', 'retarget', None])
         sc['cancel_policy'] = rng.choice(['rnd', 'rnd', 'never', 'always'])
